@@ -72,8 +72,11 @@ func Start() *Engine {
 				w.update(ctx, global)
 			case id := <-e.removeWatcher:
 				logrus.Info("Remove watcher")
-				watchers[id].close()
-				delete(watchers, id)
+				// The watcher may already be gone (cancelled twice, or after a hang-up).
+				if w, has := watchers[id]; has {
+					w.close()
+					delete(watchers, id)
+				}
 			case req := <-e.updateDB:
 				logrus.Info("Update DB")
 				logrus.Infof("-> %#v", req.expr)
